@@ -50,7 +50,10 @@ MANIFEST = dict(
          "is shown false of the code by C04_realign_counterexample (known finding: loss in the middle of a read); (8) C04_blocks_shape: every block "
          "of every history has one slice per channel, all of the announced length; (9) Compose.lancero_blocks_never_crash (composition with the "
          "pipeline model of C01): for every geometry, every list of well-formed frames and every read schedule the emitted blocks, with arbitrary "
-         "control requests woven in, are processed by the prepared source without a panic (card bytes -> records). The model is compared block for "
+         "control requests woven in, are processed by the prepared source without a panic (card bytes -> records); (10) Compose.lancero_no_pulse_lost / "
+         "lancero_error_edges_never_lost (composition with C02): on the stream every pipeline channel receives the published primaries satisfy the "
+         "C02 clauses (edge/level completeness, soundness), and for error channel 2(c*rows+r) that stream is literally the err component of word "
+         "(r,c) of the card's frames 0..N-1, whatever the read schedule. The model is compared block for "
          "block with the real launchLanceroReader/getNextBlock/distributeData (scripted in-memory card; direct buffer histories) on every run and "
          "the real output is judged by the closed-form oracle.",
     note="Trusted: Lean 4.33 kernel (axioms propext, Classical.choice, Quot.sound only; audited every run); the hand-written model is tied "
@@ -79,4 +82,7 @@ THEOREMS = [
     ("DastardV.Props.C04", "DastardV.C04.C04_realign_counterexample"),
     ("DastardV.Props.C04", "DastardV.C04.C04_blocks_shape"),
     ("DastardV.Lemmas.ComposeLancero", "DastardV.Compose.lancero_blocks_never_crash"),
+    ("DastardV.Lemmas.ComposeLancero", "DastardV.Compose.lancero_blocks_blocksFor"),
+    ("DastardV.Lemmas.ComposeLancero", "DastardV.Compose.lancero_no_pulse_lost"),
+    ("DastardV.Lemmas.ComposeLancero", "DastardV.Compose.lancero_error_edges_never_lost"),
 ]
